@@ -36,6 +36,13 @@ MkByteArray(b) == [t |-> "bytearray", b |-> b]
 MkDec(neg, digits, exp) == [t |-> "dec", neg |-> neg, digits |-> digits, exp |-> exp, special |-> ""]
 MkDtUtc(c) == [t |-> "dt", y |-> c.y, mo |-> c.mo, d |-> c.d, h |-> c.h, mi |-> c.mi, s |-> c.s, us |-> 0, off |-> <<0>>]
 
+\* A timestamp above 0xFFFFFFFF is read as milliseconds; the library divides by 1000.0 in binary
+\* floating point, which TLA+ does not model: such values carry approx = TRUE and are compared
+\* within 64 microseconds (DESIGN.md section 10).
+IsApprox(v) == "approx" \in DOMAIN v /\ v.approx
+TotalMicros(v) == IntAdd(IntMulSmall(IntMulSmall(EpochOf(v, 0), 1000), 1000), IntOf(v.us))
+DtClose(a, b) == LET d == IntAdd(TotalMicros(a), IntNeg(TotalMicros(b))) IN CmpMag(d.mag, <<64>>) <= 0
+
 IntOfV(v) == [neg |-> v.neg, mag |-> v.mag]
 
 \* -------------------------------------------------------------------------
@@ -134,7 +141,7 @@ DecTimestamp(b) ==
     ELSE LET r == ReadTimestamp(Strip(Take(b, 8))) IN
          IF ~r.ok THEN Bad
          ELSE Got(8, [t |-> "dt", y |-> r.c.y, mo |-> r.c.mo, d |-> r.c.d, h |-> r.c.h, mi |-> r.c.mi,
-                      s |-> r.c.s, us |-> r.ms * 1000, off |-> <<0>>])
+                      s |-> r.c.s, us |-> r.ms * 1000, off |-> <<0>>, approx |-> r.millis])
 
 DecDecimal(b) ==
     IF Len(b) < 5 THEN Bad
@@ -233,8 +240,9 @@ SameValue(a, b) ==
          [] a.t = "float" -> SameF64(a.d, b.d)
          [] a.t = "dec" -> a.special = b.special
                            /\ (a.special = "" => DecNorm(a.neg, a.digits, a.exp) = DecNorm(b.neg, b.digits, b.exp))
-         [] a.t = "dt" -> a.y = b.y /\ a.mo = b.mo /\ a.d = b.d /\ a.h = b.h /\ a.mi = b.mi /\ a.s = b.s
-                          /\ a.us = b.us /\ a.off = b.off
+         [] a.t = "dt" -> IF IsApprox(b) \/ IsApprox(a) THEN a.off = b.off /\ a.off = <<0>> /\ DtClose(a, b)
+                          ELSE a.y = b.y /\ a.mo = b.mo /\ a.d = b.d /\ a.h = b.h /\ a.mi = b.mi /\ a.s = b.s
+                               /\ a.us = b.us /\ a.off = b.off
          [] a.t = "st" -> a.y = b.y /\ a.mo = b.mo /\ a.d = b.d /\ a.h = b.h /\ a.mi = b.mi /\ a.s = b.s
          [] a.t = "none" -> TRUE
          [] a.t = "table" -> /\ Keys(a.e) = Keys(b.e)
